@@ -12,13 +12,14 @@ LEVEL = "exploration"
 RULE = ("(a) enumerated: bundle definition trees of depth <=2 and fan-out <=2 with every assignment of the six leaf kinds "
         "(input, output, inout, undirected port, role-directed, plain, plain with a direction attribute but no port visibility), roles "
         "given as the role set's own objects or as fresh equal Role objects, leaf width in {1,3}, flip state at each level written "
-        "as constructor flag, flipped(), and double applications, role in {none, source, sink, unrelated}, port vs internal "
+        "as constructor flag, flipped(), double applications and `2 * B(flipped=..)`, role in {none, source, sink, unrelated}, port vs internal "
         "instantiation (quick: a fixed systematic sub-family; thorough: all); (b) Hypothesis: trees of depth <=3, fan-out <=3, "
         "widths <=8, and generated parent designs that connect bundle-port children through bundle instances, sub-bundle "
         "references and anonymous bundles (C01 oracle). Oracle: a reference flattener written from the statement, compared as a "
         "set of (name, width, direction) ports and (name, width) internal signals. Non-trivial = depth >=2 and at least one "
         "flip or role; distinct by canonical case text.")
-ASSUME = ["role-derived directions are not flipped (the statement flips only leaves declared as ports)",
+ASSUME = ["when two member paths join to one flat name (leaf u_x beside sub-bundle u with leaf x) the statement fixes neither name: ports are "
+          "then compared as multisets modulo trailing underscores, and exported names must be unique", "role-derived directions are not flipped (the statement flips only leaves declared as ports)",
           "a leaf that is both a port and role-carrying, and nameless Role() objects, are not generated",
           "port order is not part of the statement: ports are compared as a set"]
 
@@ -30,14 +31,14 @@ def ref_flatten(spec, binfo):
     """-> (ports set {(name,width,dir)}, signals set {(name,width)})"""
     name, bidx, port, flipped = binfo[0], binfo[1], binfo[2], binfo[3]
     role = binfo[4] if len(binfo) > 4 else None
-    ports, sigs = set(), set()
+    ports, sigs = [], []
 
     def walk(bidx, path, flips, inst_role):
         b = spec["bundles"][bidx]
         for lname, width, kind in b["sigs"]:
             full = name + "_" + "_".join(path + (lname,))
             if not port:
-                sigs.add((full, width))
+                sigs.append((full, width))
                 continue
             if kind in DIRMAP:
                 d = DIRMAP[kind]
@@ -48,7 +49,7 @@ def ref_flatten(spec, binfo):
                 d = "OUTPUT" if inst_role == src else "INPUT" if inst_role == dst else "NONE"
             else:  # plain
                 d = "NONE"
-            ports.add((full, width, d))
+            ports.append((full, width, d))
         for sub in b["subs"]:
             srole = sub[4] if len(sub) > 4 else None
             walk(sub[1], path + (sub[0],), flips + (1 if sub[2] else 0), srole)
@@ -65,8 +66,9 @@ def check_case(case):
     import hdl21 as h
     spec = {"cells": [], "bundles": case["bundles"], "top": 0,
             "modules": [{"name": "M", "sigs": [["keep", 1, "in"]], "bundles": [case["inst"]], "insts": [], "style": case.get("style", "proc")}]}
-    want_ports, want_sigs = ref_flatten(spec, case["inst"])
-    want_ports = set(want_ports) | {("keep", 1, "INPUT")}
+    lp, ls = ref_flatten(spec, case["inst"])
+    _lists = {"ports": lp + [("keep", 1, "INPUT")], "sigs": ls}
+    want_ports, want_sigs = set(_lists["ports"]), set(ls)
     try:
         m = Builder(spec).module(0)
         pkg = h.to_proto(m)
@@ -80,6 +82,20 @@ def check_case(case):
     out = []
     if len(pm.ports) != len(pnames):
         out.append(("duplicate_port", "exported module lists a port twice: %s" % [p.signal for p in pm.ports]))
+    clash = len({t[0] for t in _lists["ports"]} | {t[0] for t in _lists["sigs"]}) != len(_lists["ports"]) + len(_lists["sigs"])
+    if clash:
+        # two member paths join to one flat name: the statement fixes the name of neither; Hdl21 may append underscores (or
+        # raise). Compare as multisets, names modulo trailing underscores; exported names must still be unique.
+        from collections import Counter
+        norm = lambda t: (t[0].rstrip("_"),) + tuple(t[1:])
+        wp, ws = Counter(norm(t) for t in _lists["ports"]), Counter(norm(t) for t in _lists["sigs"])
+        gp, gs = Counter(norm(t) for t in got_ports), Counter(norm(t) for t in got_sigs)
+        if len({p.signal for p in pm.ports}) != len(pm.ports) or len({s_.name for s_ in pm.signals}) != len(pm.signals):
+            out.append(("duplicate_name_on_clash", "exported names are not unique: %s" % sorted(s_.name for s_ in pm.signals)))
+        if wp != gp or ws != gs:
+            out.append(("port_set_on_name_clash", "member paths joining to one name: expected (modulo trailing underscores) ports %s signals %s, exported ports %s signals %s" % (
+                sorted(wp.elements()), sorted(ws.elements()), sorted(gp.elements()), sorted(gs.elements()))))
+        return out, {}
     if got_ports != want_ports:
         miss = sorted(want_ports - got_ports)
         extra = sorted(got_ports - want_ports)
@@ -118,6 +134,10 @@ def feats(case):
     f.add("depth%d" % depth_of(case["bundles"], i[1]))
     if i[3]:
         f.add("top_flipped")
+    if any("_" in s[0] for b in case["bundles"] for s in b["sigs"]):
+        f.add("leaf_name_with_underscore")
+    if any(len(s) > 3 and s[3] == "mult" for b in case["bundles"] for s in b["subs"]) or (len(i) > 5 and i[5] == "mult"):
+        f.add("instance_by_multiplication")
     if any(b.get("roles") == "fresh" for b in case["bundles"]):
         f.add("roles_as_fresh_equal_objects")
     if any(s[2].startswith("plain_d") for b in case["bundles"] for s in b["sigs"]):
@@ -130,24 +150,24 @@ def feats(case):
         for s in b["subs"]:
             if s[2]:
                 f.add("sub_flipped")
-            if len(s) > 3 and len(s[3]) == 4 and int(s[3][3]) >= 2:
+            if len(s) > 3 and len(s[3]) == 4 and s[3][0] == "c" and int(s[3][3]) >= 2:
                 f.add("double_flip_call")
             if len(s) > 4 and s[4]:
                 f.add("sub_role")
-    if len(i) > 5 and len(i[5]) == 4 and int(i[5][3]) >= 2:
+    if len(i) > 5 and len(i[5]) == 4 and i[5][0] == "c" and int(i[5][3]) >= 2:
         f.add("double_flip_call")
     return sorted(f)
 
 
 KINDS = ["in", "out", "inout", "port", "role_ab", "plain", "plain_din"]
-FLIPS = [(False, "c0f0"), (True, "c1f0"), (True, "c0f1"), (False, "c1f1"), (False, "c0f2"), (True, "c1f2")]
+FLIPS = [(False, "c0f0"), (True, "c1f0"), (True, "c0f1"), (False, "c1f1"), (False, "c0f2"), (True, "c1f2"), (True, "mult"), (False, "mult")]
 ROLES = [None, "A", "B", "C"]
 
 
 def box(full):
     """Enumerated family. Yields cases."""
     leafsets = [[k] for k in KINDS] + ([[a, b] for a in KINDS for b in KINDS] if full else [["in", "role_ab"], ["out", "plain"], ["role_ab", "port"], ["plain", "in"], ["inout", "out"]])
-    flips = FLIPS if full else FLIPS[:4]
+    flips = FLIPS if full else FLIPS[:4] + FLIPS[6:7]
     for width in ((1, 3) if full else (1,)):
         for tl in leafsets:
             for sl in leafsets if full else [[k] for k in KINDS] + [["role_ab", "in"], ["out", "plain"]]:
@@ -207,7 +227,9 @@ def shard(idx, n, tier):
         nb = draw(st.integers(1, 4))
         for k in range(nb):
             nl = draw(st.integers(1, 3))
-            sigs = [["xyz"[i], draw(st.integers(1, 8)), draw(st.sampled_from(KINDS + ["role_ba", "plain_dout"]))] for i in range(nl)]
+            # (leaf names that contain an underscore can join to the same flat name as a member of a sub-bundle: u_x beside u.x)
+            lnames = draw(st.permutations(["x", "y", "z", "u_x", "v_y", "u_u_x"]))[:nl] if draw(st.integers(0, 3)) == 0 else "xyz"
+            sigs = [[lnames[i], draw(st.integers(1, 8)), draw(st.sampled_from(KINDS + ["role_ba", "plain_dout"]))] for i in range(nl)]
             subs = []
             if k > 0:
                 for i in range(draw(st.integers(0, 3))):
